@@ -19,18 +19,18 @@ import (
 // Engine E3: per-byte summaries of scanner state functions.
 
 type scanPath struct {
-	atoms      []absint.Atom
-	guard      string   // canonical guard string
-	kind       string   // "return" | "panic" | "error" (enum scanner returns an error) | "abort"
-	next       string   // name of the next state function ("" = unchanged, "<pop>" = popped from returnToStep, "<dyn>" = not a constant)
-	unfinished string   // "", "true", "false"
-	finds      []string // lexeme type constant names in order
-	pushes     []string // state names pushed on returnToStep
-	pops       int
-	stores     []string // other stores to scanner fields, "field=value"
-	errCtx     string   // context string / code of the raised error
-	lookahead  []string // data.Byte(index+k) reads
-	retVal     string
+	atoms       []absint.Atom
+	guard       string   // canonical guard string
+	kind        string   // "return" | "panic" | "error" (enum scanner returns an error) | "abort"
+	next        string   // name of the next state function ("" = unchanged, "<pop>" = popped from returnToStep, "<dyn>" = not a constant)
+	unfinished  string   // "", "true", "false"
+	finds       []string // lexeme type constant names in order
+	pushes      []string // state names pushed on returnToStep
+	pops        int
+	stores      []string // other stores to scanner fields, "field=value"
+	errCtx      string   // context string / code of the raised error
+	lookahead   []string // data.Byte(index+k) reads
+	retVal      string
 	fieldStores []fieldStore
 	ops         []scanOp
 }
